@@ -18,6 +18,7 @@
 //   IP texthex port flag p6hex n6hex     InetAddress(ip, port, ipv6)
 //   IPP port lo v6 n6hex    InetAddress(port, loopbackOnly, ipv6)
 //   P4 texthex              sockets::fromIpPort(AF_INET) + toIp
+//   TZB hex                 the bytes as a file through detail::readTimeZoneFile: "tzif ok <offs> <trans>" | "tzif fail"
 //   DUMP                    (kind dump) print the table the real reader produced: "dump <offs> <trans> <isdst>"
 //   end
 #include <algorithm>
@@ -29,6 +30,8 @@
 #include <time.h>
 #include <arpa/inet.h>
 #include <endian.h>
+#include <stdlib.h>
+#include <unistd.h>
 
 #define private public
 #include "muduo/base/TimeZone.h"
@@ -234,6 +237,37 @@ int main()
         t += b;
       }
       printf("dump %s %s %s\n", o.empty() ? "-" : o.c_str(), t.empty() ? "-" : t.c_str(), dst.empty() ? "-" : dst.c_str());
+    }
+    else if (k == "TZB")
+    {
+      // the real reader on exactly these bytes (a scratch file, removed at once)
+      string bytes = vh::bytesOfSpec(w[1]);
+      char path[] = "/tmp/c20_tzif_XXXXXX";
+      int fd = ::mkstemp(path);
+      if (fd < 0) { printf("tzif scratch-file-error\n"); continue; }
+      size_t off = 0;
+      while (off < bytes.size())
+      {
+        ssize_t nw = ::write(fd, bytes.data() + off, bytes.size() - off);
+        if (nw <= 0) break;
+        off += static_cast<size_t>(nw);
+      }
+      ::close(fd);
+      TimeZone::Data data;
+      bool ok = muduo::detail::readTimeZoneFile(path, &data);   // its diagnostics go to stderr
+      ::unlink(path);
+      if (!ok) { printf("tzif fail\n"); continue; }
+      string o, t;
+      char b[64];
+      for (size_t i = 0; i < data.localtimes.size(); ++i) { snprintf(b, sizeof b, "%s%d", i ? "," : "", data.localtimes[i].utcOffset); o += b; }
+      for (size_t i = 0; i < data.transitions.size(); ++i)
+      {
+        const TimeZone::Data::Transition& tr = data.transitions[i];
+        if (tr.localtime != tr.utctime + data.localtimes[tr.localtimeIdx].utcOffset) { t = "LOCALTIME-COLUMN-INCONSISTENT"; break; }
+        snprintf(b, sizeof b, "%s%lld:%d", i ? "," : "", static_cast<ll>(tr.utctime), tr.localtimeIdx);
+        t += b;
+      }
+      printf("tzif ok %s %s\n", o.empty() ? "-" : o.c_str(), t.empty() ? "-" : t.c_str());
     }
     else if (k == "L" || k == "R")
     {
